@@ -241,6 +241,34 @@ def run_sequence(g, xpn, counters, viol):
                 continue
             ok = compare(s2, m2, xpn, f"select-{kind.split('_')[0]}", viol)
             counters["select_judged"] += 1
+            if n >= 2 and g.random() < 0.5:
+                # a piece of exactly one row (two-dimensional, taken by a slice, a one-hot mask or a length-one index array) is a
+                # sample set like any other: it must survive the dictionary / pickle round trips and a concatenation of one piece
+                import pickle as _pk
+
+                j = int(g.integers(n))
+                how = int(g.integers(3))
+                if how == 0:
+                    piece = s[j : j + 1]
+                elif how == 1:
+                    mk_ = np.zeros(n, dtype=bool)
+                    mk_[j] = True
+                    piece = s[xp.asarray(mk_)]
+                else:
+                    piece = s[xp.asarray(np.array([j]))]
+                mp = m.select(slice(j, j + 1))
+                C1 = getattr(S, cls_name)
+                for label, fn, je in (("dict-flat", lambda o: C1.from_dict(o.to_dict(flat=True)), True), ("dict-nested", lambda o: C1.from_dict(o.to_dict(flat=False)), True),
+                                      ("pickle", lambda o: _pk.loads(_pk.dumps(o)), True), ("concat-of-one-piece", lambda o: C1.concatenate([o]), False)):
+                    counters["one_row_pieces_roundtripped"] += 1
+                    try:
+                        r1 = fn(piece)
+                    except Exception as exc:  # noqa: BLE001
+                        viol.append({"mech": f"C16/one-row-piece-{label}-raises", "detail": f"{cls_name} {xpn}: {type(exc).__name__}: {str(exc)[:160]}"})
+                        continue
+                    if label.startswith("concat") and cls_name == "SMCSamples":
+                        r1.beta = mp.beta  # concatenation of SMC populations does not carry the temperature (recorded elsewhere, not judged)
+                    compare(r1, mp, xpn, f"one-row-piece-{label}", viol, judge_evidence=je and cls_name != "BaseSamples")
             if m.cls in ("Samples", "SMCSamples") and m.le is not None:
                 counters["evidence_carried_checked"] += 1
             s, m = s2, m2
